@@ -33,7 +33,7 @@ def obs_ops(r, directed):
 
 class C19(PropBase):
     id = 'C19'
-    obs = {'nxcall', 'addnode', 'clear', 'add', 'bulk', 'nodes', 'inter', 'ids', 'ips', 'stream'}
+    obs = {'nxcall', 'addnode', 'clear', 'add', 'bulk', 'nodes', 'inter', 'ids', 'ips', 'stream', 'has'}
     rule = ('state = random history (both classes, both modes); EVERY public attribute the class shares with networkx.Graph / DiGraph '
             '(enumerated by reflection on the installed networkx at run time) is called with synthesised arguments; the call must either '
             'leave nodes/timelines/snapshots/stream untouched (queries, views, factories), or raise NetworkXNotImplemented and leave them '
@@ -75,8 +75,11 @@ class C19(PropBase):
         # the model-alphabet operations
         prog += [('addnode', 0, 50, 2)] + obs_ops(0, d)
         prog += [('nodes', 0, None)] + has_probes(0, ns, ts) + [('stream', 0), ('streamchk', 0)]
+        hi = max(ts + [6]) + 2
         prog += [('clear', 0, 'clear_edges')] + obs_ops(0, d) + [('add', 0, 1, 2, 3, 5)] + obs_ops(0, d)
-        prog += [('clear', 0, 'clear')] + obs_ops(0, d)
+        prog += [('has', 0, 1, 2, t) for t in range(1, hi)]        # a cleared graph must behave like a fresh one
+        prog += [('clear', 0, 'clear')] + obs_ops(0, d) + [('add', 0, 1, 2, 2, None)]
+        prog += [('has', 0, 1, 2, t) for t in range(0, hi)] + [('clear', 0, 'clear')] + obs_ops(0, d)
         # rebuild, freeze, try every mutator
         prog += [('new', 1, d, rem)] + [(o[0], 1) + tuple(o[2:]) for o in hist] + [('freeze', 1), ('meta', 1)] + obs_ops(1, d)
         for name in MUST_BLOCK[:8]:
@@ -106,7 +109,8 @@ class C19(PropBase):
         if len(starts0) >= 2 and blk(starts0[0]) != blk(starts0[1]):
             fails.append(dict(index=starts0[1], op=['after-inherited-calls'], what='the battery of inherited calls changed the graph'))
         # well-formedness after the model operations: stream in step with presence
-        T = Truth(prog, ri)
+        cut = starts0[3] if len(starts0) > 3 else len(prog)
+        T = Truth(prog[:cut], ri[:cut])     # presence as probed BEFORE the clear operations
         if case['removal']:
             seg = [(op, r) for op, r in zip(prog, ri)]
             # the unclosed two-instant run is C05's finding, not an effect of the inherited API
@@ -119,6 +123,18 @@ class C19(PropBase):
                     fails.append(dict(index=i, op=list(op), what='%s left interactions / snapshots / events behind: %r' % (op[2], b[1:5])))
                 if op[2] == 'clear' and b[0] != []:
                     fails.append(dict(index=i, op=list(op), what='clear left nodes behind'))
+        # after clear / clear_edges and one new interaction, presence is that of a fresh graph
+        phase = 0
+        for i, (op, r) in enumerate(zip(prog, ri)):
+            if op[0] == 'clear' and op[1] == 0:
+                phase += 1
+            elif op[0] == 'has' and op[1] == 0 and phase in (1, 2) and (op[2], op[3]) == (1, 2) and op[4] is not None and i > starts0[2]:
+                if phase == 1:
+                    exp = (op[4] in (3, 4)) if case['removal'] else (op[4] == 3)
+                else:
+                    exp = (op[4] == 2)
+                if r != exp:
+                    fails.append(dict(index=i, op=list(op), what='after clear: has_interaction(1,2,%r) = %r, a fresh graph gives %r' % (op[4], r, exp)))
         # frozen graph
         starts1 = [i for i, op in enumerate(prog) if op[0] == 'nodes' and op[1] == 1 and prog[i + 1][0] == 'inter']
         meta = next((r for op, r in zip(prog, ri) if op[0] == 'meta' and op[1] == 1), None)
